@@ -41,6 +41,7 @@ Two kinds of cases (plain values):
     file is restored.
 """
 import os
+import sys
 import shutil
 import tempfile
 from collections.abc import Mapping
@@ -188,6 +189,8 @@ _LEAF = st.one_of(
                   st.tuples(st.floats(0.5, 1.5), st.floats(0.0, 0.01))),
         st.tuples(st.just(OBJ_TAG), st.just('ordereddict'), st.lists(st.integers(0, 5), max_size=3,
                                                                        unique=True).map(tuple)),
+        st.tuples(st.just(OBJ_TAG), st.just('cyclic'), st.integers(0, 3)),
+        st.tuples(st.just(OBJ_TAG), st.just('cyclic'), st.integers(0, 3)),
         st.tuples(st.just(OBJ_TAG), st.just('frozenset'), st.lists(st.integers(0, 5), max_size=3,
                                                                      unique=True).map(tuple))))
 _DKEY = st.one_of(st.text(_TXT, max_size=4), st.integers(-5, 5))
@@ -210,6 +213,13 @@ _OUTDIR = st.sampled_from([True, True, True, True, False])
 def _tasks(draw):
     tasks = [{'name': name, 'status': draw(_STATUS), 'outdir': draw(_OUTDIR), 'extra': draw(_EXTRA)}
              for name in draw(_names())]
+    special = draw(st.integers(0, 15))
+    if special <= 1:                       # now and then a result that is a graph or very deep
+        which = draw(st.integers(0, len(tasks) - 1))
+        obj = ((OBJ_TAG, 'cyclic', draw(st.integers(0, 3))) if special == 0
+               else (OBJ_TAG, 'deep', draw(st.sampled_from([600, 700]))))
+        tasks[which] = dict(tasks[which], status='DONE', outdir=True,
+                            extra=dict(tasks[which]['extra'], result=obj))
     if draw(st.integers(0, 11)) == 0:      # now and then a file of 1-2 kB
         which = draw(st.integers(0, len(tasks) - 1))
         tasks[which]['extra'] = dict(tasks[which]['extra'],
@@ -261,7 +271,13 @@ def _hist(draw, max_ops):
 
 @st.composite
 def _sweep(draw):
-    return {'kind': 'sweep', 'fname': draw(st.sampled_from(FNAMES)), 'tasks': draw(_tasks()),
+    tasks = draw(_tasks())
+    for task in tasks:
+        # (a sweep reads the file once per byte: the 2 kB of a very deep result add nothing to it)
+        res = task['extra'].get('result')
+        if isinstance(res, tuple) and len(res) == 3 and isinstance(res[0], str) and res[0] == OBJ_TAG and res[1] == 'deep':
+            task['extra'] = dict(task['extra'], result=(OBJ_TAG, 'cyclic', 1))
+    return {'kind': 'sweep', 'fname': draw(st.sampled_from(FNAMES)), 'tasks': tasks,
             'variant': draw(st.sampled_from(['trunc', 'trunc', 'nulpad', 'rewrite']))}
 
 
